@@ -6,6 +6,7 @@ from ..index import u, call_name, call_attr, walk_local, base_name
 from .. import flow
 from ..fold import try_fold
 from ..util import stmts_with_env, calls_with_env, assignments_to, single_def, kwarg, param_names
+from . import shared
 from .common import method, unconditional_in
 
 AB = 'vermouth/processors/average_beads.py'
@@ -148,4 +149,5 @@ def run(ck):
     from .c01 import weight_rules
     weight_rules(ck)
     # the weight table stored on the particle is the table itself (null weights included), not a filtered copy
+    shared.runs_every_molecule(ck, 'vermouth/processors/average_beads.py', 'DoAverageBead', 'MPT-every-molecule')
     ck.assume('the arithmetic of numpy.average and rigid-motion equivariance are not decided')
